@@ -1256,8 +1256,14 @@ ALL_CRATES = {"linfa", "linfa_bayes", "linfa_clustering", "linfa_elasticnet", "l
               "linfa_nn", "linfa_pls", "linfa_preprocessing", "linfa_reduction", "linfa_svm", "linfa_trees", "linfa_tsne", "linfa_datasets"}
 
 
+def c19_regex_default():
+    from .c19 import make_regex_text_rule
+    return make_regex_text_rule("R-C04-regextext", "default")
+
+
 def rules(tier):
     from . import carry
     return [rule_range, rule_same, rule_dom, rule_forge, rule_default, rule_setter, rule_carry,
+            c19_regex_default(),
             carry.make_clone_rule("R-C04-clone", ALL_CRATES, 40), carry.make_setter_rule("R-C04-override", ALL_CRATES, 60),
             carry.make_accessor_rule("R-C04-accessor", ALL_CRATES, 80), carry.make_ctor_rule("R-C04-ctor", ALL_CRATES, 30)]
